@@ -280,6 +280,41 @@ def _explore(out, tier, seed, facts, replay=None):
             runner.mpl.close("all")
     finally:
         shutil.rmtree(tdir, ignore_errors=True)
+    # the interval between two forecast quantiles (QuantileCoverage): each end is closed exactly when the bin type says so;
+    # observations equal to the lower / upper quantile decide it
+    import verif.metric
+    from p_c08 import Stub
+    for bt in ("within", "=within", "within=", "=within=", "below", "below=", "above", "above="):
+        for rep_ in range(2 if tier == "quick" else 10):
+            n_ = 12
+            lo_ = [rng.choice([0.0, 1.0, 2.0]) for _ in range(n_)]
+            hi_ = [l_ + rng.choice([1.0, 2.0, 3.5]) for l_ in lo_]
+            ob_ = [rng.choice([l_, h_, (l_ + h_) / 2.0, l_ - 1.0, h_ + 1.0]) for l_, h_ in zip(lo_, hi_)]
+            civ = verif.util.get_intervals(bt, np.array([0.25, 0.75]))[0]
+            qd = {}
+            if not math.isinf(civ.lower):
+                qd[round(float(civ.lower), 6)] = lo_ if "within" in bt else (lo_ if bt.startswith("above") else hi_)
+            if not math.isinf(civ.upper):
+                qd[round(float(civ.upper), 6)] = hi_ if "within" in bt else (hi_ if bt.startswith("below") else lo_)
+            st_ = Stub(ob_, quant=qd)
+            nfals += 1
+            try:
+                got_ = float(verif.metric.QuantileCoverage().compute_single(st_, 0, None, None, civ))
+            except Exception as e:
+                out.violation("quantile-interval-exception:%s" % bt, "QuantileCoverage with -b %s raised %s: %s" % (bt, type(e).__name__, e), {"bin_type": bt, "obs": ob_, "lower": lo_, "upper": hi_})
+                continue
+            if "within" in bt:
+                inside = [((o_ > l_) or (bt.startswith("=") and o_ == l_)) and ((o_ < h_) or (bt.endswith("=") and o_ == h_)) for o_, l_, h_ in zip(ob_, lo_, hi_)]
+            elif bt.startswith("below"):
+                q1_ = qd[round(float(civ.upper), 6)]
+                inside = [(o_ < q_) or (bt.endswith("=") and o_ == q_) for o_, q_ in zip(ob_, q1_)]
+            else:
+                q0_ = qd[round(float(civ.lower), 6)]
+                inside = [(o_ > q_) or (bt.endswith("=") and o_ == q_) for o_, q_ in zip(ob_, q0_)]
+            want_ = sum(inside) / float(n_)
+            if abs(got_ - want_) > 1e-12:
+                out.violation("quantile-interval-events:%s" % bt, "QuantileCoverage -b %s: obs %r, lower quantile %r, upper quantile %r gives %r; the share of observations inside the documented interval is %r"
+                              % (bt, ob_, lo_, hi_, got_, want_), {"bin_type": bt, "obs": ob_, "lower": lo_, "upper": hi_})
     stats.update({
         "evaluations": len(exprs) + nfals,
         "distinct_nontrivial": len(distinct),
